@@ -33,6 +33,9 @@
 #error "C13 expects the epoll configuration the repository's build system produces"
 #endif
 
+#ifndef C13_BUILD
+#define C13_BUILD "" /* "@at" when the library was configured by the autotools build system */
+#endif
 /* the global lock object, if the library has one (first member is the mutex in both layouts) */
 #if COAP_THREAD_SAFE
 #define GLOBAL_MUTEX ((void *)&global_lock.mutex)
@@ -1138,10 +1141,10 @@ add(int nw, int a0, int a1, int b0, int b1, int c0, int c1, int bound) {
     snprintf(d[w], sizeof d[w], "%s%s%s", c.ops[w][0] >= 0 ? op_names[c.ops[w][0]] : "-", c.ops[w][1] >= 0 ? "+" : "",
              c.ops[w][1] >= 0 ? op_names[c.ops[w][1]] : "");
   if (add_flags)
-    snprintf(c.name, sizeof c.name, "c13x:%s%s:w=%d:%s|%s|%s:B=%d", add_flags & F_TCP ? "udp+tcp" : "udp", add_flags & F_PERSIST ? "+persist" : "", nw,
+    snprintf(c.name, sizeof c.name, "c13x" C13_BUILD ":%s%s:w=%d:%s|%s|%s:B=%d", add_flags & F_TCP ? "udp+tcp" : "udp", add_flags & F_PERSIST ? "+persist" : "", nw,
              d[0], d[1], nw > 2 ? d[2] : "-", bound);
   else
-    snprintf(c.name, sizeof c.name, "c13:w=%d:%s|%s|%s:B=%d", nw, d[0], d[1], nw > 2 ? d[2] : "-", bound);
+    snprintf(c.name, sizeof c.name, "c13" C13_BUILD ":w=%d:%s|%s|%s:B=%d", nw, d[0], d[1], nw > 2 ? d[2] : "-", bound);
   cfgs = realloc(cfgs, sizeof *cfgs * (size_t)(ncfgs + 1));
   cfgs[ncfgs++] = c;
 }
